@@ -60,6 +60,9 @@ func c14Scenarios(thorough bool) []*c14Scenario {
 	}
 	for _, sc := range scs {
 		sc.bound = d
+		if thorough && len(sc.reqs) == 2 {
+			sc.bound = 4
+		}
 	}
 	return scs
 }
